@@ -31,6 +31,8 @@ type concParams struct {
 	// QB/TB: deviation bound for the quick / thorough tier (0 = tier default).
 	QB int `json:"qb,omitempty"`
 	TB int `json:"tb,omitempty"`
+	// Where: record call sites of blocked goroutines (diagnostic re-run of one schedule).
+	Where bool `json:"where,omitempty"`
 }
 
 // linInput / linOutput are the porcupine operation payloads.
@@ -155,6 +157,8 @@ type reader interface {
 // runConc executes the driver once under the given choice prefix.
 func runConc(p *concParams, prefix []int, extra func(w *harness.World, cr *concRun)) (*vsched.Result, *concRun) {
 	cr := &concRun{}
+	vsched.WantWhere = p.Where
+	defer func() { vsched.WantWhere = false }()
 	var clock int64
 	tick := func() int64 { clock++; return clock }
 	r := vsched.Run(vsched.Options{Prefix: prefix}, func() {
